@@ -16,46 +16,49 @@ def isLibError (b : Backend) (r : LibRet) : Bool :=
   | _, LibRet.streamError => true
   | _, _ => false
 
-/-- `while (in_size > 0 && out_size > 0)` -/
-def wrapLoop {τ : Type} (L : Lib τ) (b : Backend) (fl : Flush) :
-    Nat → τ → Bytes → Nat → Nat → Bytes → Option (StepOut τ)
-  | 0, _, _, _, _, _ => none
-  | fuel + 1, st, inp, room, ai, ao =>
+/-- one round of `while (in_size > 0 && out_size > 0)` -/
+def wrapBody {τ : Type} (L : Lib τ) (b : Backend) (fl : Flush) : WrapSt τ → LoopStep (WrapSt τ) (StepOut τ)
+  | (st, inp, room, ai, ao) =>
     if decide (0 < inp.length) && decide (0 < room) then
       let r := L.call st inp room fl
-      if b = Backend.bzip2 ∧ r.ret = LibRet.bufError then some ⟨r.st, ai, ao, Res.bufferFull⟩
-      else if isLibError b r.ret then some ⟨r.st, ai, ao, Res.error⟩
+      if b = Backend.bzip2 ∧ r.ret = LibRet.bufError then LoopStep.done ⟨r.st, ai, ao, Res.bufferFull⟩
+      else if isLibError b r.ret then LoopStep.done ⟨r.st, ai, ao, Res.error⟩
       else
-        let inp' := inp.drop r.consumed
-        let room' := room - r.out.length
         let ai' := ai + r.consumed
         let ao' := ao ++ r.out
-        if r.ret = LibRet.streamEnd then some ⟨L.reset r.st, ai', ao', Res.streamEnd⟩
-        else if r.ret = LibRet.bufError then some ⟨r.st, ai', ao', Res.bufferFull⟩
-        else wrapLoop L b fl fuel r.st inp' room' ai' ao'
-    else some ⟨st, ai, ao, Res.ok⟩
+        if r.ret = LibRet.streamEnd then LoopStep.done ⟨L.reset r.st, ai', ao', Res.streamEnd⟩
+        else if r.ret = LibRet.bufError then LoopStep.done ⟨r.st, ai', ao', Res.bufferFull⟩
+        else LoopStep.next (r.st, inp.drop r.consumed, room - r.out.length, ai', ao')
+    else LoopStep.done ⟨st, ai, ao, Res.ok⟩
+
+def wrapLoop {τ : Type} (L : Lib τ) (b : Backend) (fl : Flush) (fuel : Nat)
+    (st : τ) (inp : Bytes) (room ai : Nat) (ao : Bytes) : Option (StepOut τ) :=
+  iter (wrapBody L b fl) fuel (st, inp, room, ai, ao)
 
 /-- `process_data`; the `compress` flag only selects the library function in the C code -/
 def wrapProcess {τ : Type} (L : Lib τ) (b : Backend) (_compress : Bool) (st : τ) (inp : Bytes) (room : Nat) (fl : Flush) :
     Option (StepOut τ) :=
   wrapLoop L b fl (inp.length + room + 2) st inp room 0 []
 
-def zstdLoop {τ : Type} (L : ZLib τ) (fl : Flush) :
-    Nat → τ → Bytes → Nat → Nat → Bytes → Option (τ × Bytes × Nat × Nat × Bytes × Bool)
-  | 0, _, _, _, _, _ => none
-  | fuel + 1, st, inp, room, ai, ao =>
+def zstdBody {τ : Type} (L : ZLib τ) (fl : Flush) :
+    τ × Bytes × Nat × Nat × Bytes → LoopStep (τ × Bytes × Nat × Nat × Bytes) ((τ × Bytes × Nat × Nat × Bytes) × Bool)
+  | (st, inp, room, ai, ao) =>
     if decide (0 < inp.length) && decide (0 < room) then
       let r := L.call st inp room fl
-      if r.isError then some (st, inp, room, ai, ao, true)
-      else zstdLoop L fl fuel r.st (inp.drop r.consumed) (room - r.out.length) (ai + r.consumed) (ao ++ r.out)
-    else some (st, inp, room, ai, ao, false)
+      if r.isError then LoopStep.done ((st, inp, room, ai, ao), true)
+      else LoopStep.next (r.st, inp.drop r.consumed, room - r.out.length, ai + r.consumed, ao ++ r.out)
+    else LoopStep.done ((st, inp, room, ai, ao), false)
+
+def zstdLoop {τ : Type} (L : ZLib τ) (fl : Flush) (fuel : Nat) (st : τ) (inp : Bytes) (room ai : Nat) (ao : Bytes) :
+    Option ((τ × Bytes × Nat × Nat × Bytes) × Bool) :=
+  iter (zstdBody L fl) fuel (st, inp, room, ai, ao)
 
 def zstdProcess {τ : Type} (L : ZLib τ) (_compress : Bool) (st : τ) (inp : Bytes) (room : Nat) (fl : Flush) :
     Option (StepOut τ) :=
   match zstdLoop L fl (inp.length + room + 2) st inp room 0 [] with
   | none => none
-  | some (st', _, _, ai, ao, true) => some ⟨st', ai, ao, Res.error⟩
-  | some (st', inp', room', ai, ao, false) =>
+  | some ((st', _, _, ai, ao), true) => some ⟨st', ai, ao, Res.error⟩
+  | some ((st', inp', room', ai, ao), false) =>
     if fl ≠ Flush.none ∧ inp'.length = 0 then some ⟨st', ai, ao, Res.streamEnd⟩
     else if 0 < inp'.length ∧ room' = 0 then some ⟨st', ai, ao, Res.bufferFull⟩
     else some ⟨st', ai, ao, Res.ok⟩
